@@ -16,14 +16,21 @@ EXTENDS FeasibilityOps, TLC
 
 CONSTANTS Libs,        \* the transceiver libraries considered: each a sequence of mode records
                        \*   [br, rate, fits, worst, thr, tx]   (tx: reciprocal transmitter OSNR)
-          Scenarios(_), \* library -> set of [stages, routes]: the add/drop stages the path crosses (configuration, see
-                       \*   FeasibilityOps.StageInv) and the routes of the requests of the batch, one per request
-          LineInv,     \* [baud rate -> reciprocal line GSNR delivered by a pristine path for that group]
+          Scenarios(_), \* library -> set of [stages, routes, flags, spectrum]: the add/drop stages the path crosses
+                       \*   (configuration, see FeasibilityOps.StageInv); the routes of the services of the batch, one per
+                       \*   service; their bidirectional flags AS WRITTEN in the service file (<<>>: the request's); a
+                       \*   user-defined spectrum [carrier -> reciprocal transmitter OSNR] for fixed-mode requests (<<>>: none)
+          Carriers,    \* the carriers of the spectrum (the figures of the receiver are per carrier)
+          LineInv,     \* [baud rate -> reciprocal line GSNR delivered by a pristine path for that group] (carrier c
+                       \*   sees LineInv[b] + c: the carriers differ)
           RevMargins   \* margins (worst - thr, micro-dB) the reverse direction may show
 
 VARIABLES lib,        \* the library of the request's transceiver
           stages,     \* configuration of the add/drop stages crossed (profiles as listed, selected profile id or NONE)
           routes,     \* the batch: route of request 1, route of request 2, ... (same ends, transceiver, mode)
+          flags,      \* bidirectional flag of every service of the batch as written (<<>>: req.bidir for all): services
+                      \*   that differ in this flag are different requests - they are never merged
+          spectrum,   \* user-defined spectrum: [carrier -> reciprocal transmitter OSNR of THAT carrier], <<>> when none
           k,          \* index of the request of the batch being served
           revOf,      \* HISTORY of the batch: [route -> margin shown by its reverse direction] for the reverse
                       \*   directions propagated so far; a pristine propagation is a function of the route
@@ -37,9 +44,13 @@ VARIABLES lib,        \* the library of the request's transceiver
           nUpdates,   \* HISTORY: how many times the receiver figures have been recomputed on this path
           rev,        \* margin observed on the reverse direction (NotRun: not propagated; -Inf: infinite penalty)
           out         \* [sel, block]
-vars == <<lib, stages, routes, k, revOf, req, pc, explored, curBr, line, rx, last, nUpdates, rev, out>>
+vars == <<lib, stages, routes, flags, spectrum, k, revOf, req, pc, explored, curBr, line, rx, last, nUpdates, rev, out>>
 Adds == AddsOf(stages)
 route == routes[k]
+Bidir == IF flags = <<>> THEN req.bidir ELSE flags[k]        \* what THIS service asked for
+\* the transmitter figure of a carrier: its own one in a user-defined spectrum, else the mode's
+TxOf(i, c) == IF spectrum = <<>> THEN lib[i].tx ELSE spectrum[c]
+AllCarriers(v) == [c \in Carriers |-> v]
 
 -----------------------------------------------------------------------------
 NotRun == Inf
@@ -50,9 +61,10 @@ Requests(l) == {[auto |-> TRUE, mode |-> 0, bidir |-> b] : b \in BOOLEAN}
 
 Init == /\ lib \in Libs
         /\ req \in Requests(lib)
-        /\ \E sc \in Scenarios(lib) : stages = sc.stages /\ routes = sc.routes
+        /\ \E sc \in Scenarios(lib) : /\ stages = sc.stages /\ routes = sc.routes /\ flags = sc.flags
+                                      /\ spectrum = IF req.auto THEN <<>> ELSE sc.spectrum
         /\ k = 1 /\ revOf = <<>>
-        /\ pc = "start" /\ explored = {} /\ curBr = 0 /\ line = 0 /\ rx = 0 /\ last = 0 /\ nUpdates = 0
+        /\ pc = "start" /\ explored = {} /\ curBr = 0 /\ line = AllCarriers(0) /\ rx = AllCarriers(0) /\ last = 0 /\ nUpdates = 0
         /\ rev = NotRun
         /\ out = [sel |-> 0, block |-> NoBlock]
 
@@ -67,22 +79,23 @@ Start == /\ pc = "start"
          /\ IF req.auto /\ Fitting(lib) = {}
             THEN /\ out' = [sel |-> 0, block |-> NoFit] /\ pc' = "done"
             ELSE /\ out' = out /\ pc' = "explore"
-         /\ UNCHANGED <<lib, stages, routes, k, revOf, req, explored, curBr, line, rx, last, nUpdates, rev>>
+         /\ UNCHANGED <<lib, stages, routes, flags, spectrum, k, revOf, req, explored, curBr, line, rx, last, nUpdates, rev>>
 
 Propagate(b) == /\ pc = "explore" /\ b # curBr
                 /\ \E i \in (IF req.auto THEN Next1 ELSE {req.mode} \ explored) : lib[i].br = b
                 /\ curBr' = b
-                /\ line' = LineInv[b]          \* pristine: depends on the group only, not on what was explored before
-                /\ rx' = LineInv[b] /\ last' = 0
-                /\ UNCHANGED <<lib, stages, routes, k, revOf, req, pc, explored, nUpdates, rev, out>>
+                /\ line' = [c \in Carriers |-> LineInv[b] + c]   \* pristine: the group only, not what was explored before
+                /\ rx' = [c \in Carriers |-> LineInv[b] + c] /\ last' = 0
+                /\ UNCHANGED <<lib, stages, routes, flags, spectrum, k, revOf, req, pc, explored, nUpdates, rev, out>>
 
-Update(i) == /\ rx' = Composed(line, lib[i].tx, Adds)      \* from the LINE figure: nothing accumulates
+Update(i) == /\ rx' = [c \in Carriers |-> Composed(line[c], TxOf(i, c), Adds)]   \* from the LINE figure of the carrier,
+                                                                                  \* with the carrier's own transmitter
              /\ last' = i
              /\ nUpdates' = nUpdates + 1
 
 AfterForward(i, ok) ==     \* outcome bookkeeping once the forward direction of mode i has been judged
     IF ok THEN /\ out' = [sel |-> i, block |-> NoBlock]
-               /\ pc' = IF req.bidir THEN "reverse" ELSE "done"
+               /\ pc' = IF Bidir THEN "reverse" ELSE "done"
     ELSE IF req.auto
          THEN IF Unexplored \ {i} = {} THEN /\ out' = [sel |-> 0, block |-> NoMode] /\ pc' = "done"
                                        ELSE /\ out' = out /\ pc' = "explore"
@@ -93,7 +106,7 @@ Evaluate(i) == /\ pc = "explore" /\ lib[i].br = curBr
                /\ Update(i)
                /\ explored' = explored \cup {i}
                /\ \E ok \in Passes(lib[i]) : AfterForward(i, ok)
-               /\ UNCHANGED <<lib, stages, routes, k, revOf, req, curBr, line, rev>>
+               /\ UNCHANGED <<lib, stages, routes, flags, spectrum, k, revOf, req, curBr, line, rev>>
 
 \* the reverse direction of THIS request's route: whatever the batch propagated before, the figures are those of a
 \* pristine propagation of that route (the same as before if the batch already went that way, free otherwise)
@@ -105,14 +118,14 @@ Reverse == /\ pc = "reverse"
                    /\ \E ok \in Passes(m) :
                         out' = IF ok THEN out ELSE [out EXCEPT !.block = NotFeas]
            /\ pc' = "done"
-           /\ UNCHANGED <<lib, stages, routes, k, req, explored, curBr, line, rx, last, nUpdates>>
+           /\ UNCHANGED <<lib, stages, routes, flags, spectrum, k, req, explored, curBr, line, rx, last, nUpdates>>
 
 NextRequest == /\ pc = "done" /\ k < Len(routes)
                /\ k' = k + 1
-               /\ pc' = "start" /\ explored' = {} /\ curBr' = 0 /\ line' = 0 /\ rx' = 0 /\ last' = 0 /\ nUpdates' = 0
+               /\ pc' = "start" /\ explored' = {} /\ curBr' = 0 /\ line' = AllCarriers(0) /\ rx' = AllCarriers(0) /\ last' = 0 /\ nUpdates' = 0
                /\ rev' = NotRun
                /\ out' = [sel |-> 0, block |-> NoBlock]
-               /\ UNCHANGED <<lib, stages, routes, revOf, req>>
+               /\ UNCHANGED <<lib, stages, routes, flags, spectrum, revOf, req>>
 
 Next == Start \/ (\E b \in DOMAIN LineInv : Propagate(b)) \/ (\E i \in DOMAIN lib : Evaluate(i)) \/ Reverse
         \/ NextRequest
@@ -128,31 +141,34 @@ RevMode == WithMargin(lib[out.sel], rev)
 AutoSelection ==
     (Done /\ req.auto) =>
         IF out.block = NotFeas                     \* only a bidirectional request can end like this
-        THEN req.bidir /\ RevRan /\ AutoAcceptable(lib, [sel |-> out.sel, block |-> NoBlock]) /\ ~Feasible(RevMode)
+        THEN Bidir /\ RevRan /\ AutoAcceptable(lib, [sel |-> out.sel, block |-> NoBlock]) /\ ~Feasible(RevMode)
         ELSE /\ AutoAcceptable(lib, out)
-             /\ (req.bidir /\ out.block = NoBlock) => (RevRan /\ ~Infeasible(RevMode))
+             /\ (Bidir /\ out.block = NoBlock) => (RevRan /\ ~Infeasible(RevMode))
 
 \* fixed mode: not blocked iff feasible, in both directions when bidirectional
 FixedModeVerdict ==
     (Done /\ ~req.auto) =>
         /\ out.sel = req.mode
         /\ FixedAcceptable(lib[req.mode], IF RevRan THEN RevMode ELSE lib[req.mode], RevRan, out.block)
-        /\ (req.bidir /\ out.block = NoBlock) => RevRan
+        /\ (Bidir /\ out.block = NoBlock) => RevRan
 
 \* a mode with an impairment outside its penalty table is never accepted
 InfPenaltyAlwaysBlocks == (Done /\ out.block = NoBlock /\ out.sel # 0) => lib[out.sel].worst > -Inf
 
 \* the receiver figure is line + tx + each add/drop once, however many updates this receiver has seen; what a stage
 \* contributes is the profile the configuration selects for it (id 0 included), else the first listed of its kind
-CompositionHolds == last # 0 => rx = line + lib[last].tx + SumSeq(AddsOf(stages))
+\* - per carrier, with the transmitter figure of THAT carrier
+CompositionHolds == last # 0 => \A c \in Carriers : rx[c] = line[c] + TxOf(last, c) + SumSeq(AddsOf(stages))
+\* a service that did not ask for the reverse direction is never judged on it, one that did always is
+DirectionAsRequested == (Done /\ ~Bidir) => ~RevRan
 \* the reverse figures a request is judged on are those of its own route, whatever the batch did before
 ReverseOnOwnRoute == RevRan => (route \in DOMAIN revOf /\ rev = revOf[route])
-LineIsPristine   == curBr # 0 => line = LineInv[curBr]
+LineIsPristine   == curBr # 0 => \A c \in Carriers : line[c] = LineInv[curBr] + c
 
 \* the rule itself: always some acceptable outcome; unique up to ties / unjudged modes; blocked <=> no feasible mode
 \* (they speak about the library alone, so it is enough to evaluate them once per library: in the initial state of
 \* its unidirectional automatic request)
-OncePerLib == pc = "start" /\ req.auto /\ ~req.bidir /\ k = 1 /\ Len(routes) = 1 /\ (\A j \in 1..Len(stages) : stages[j].sel = NONE /\ stages[j].profiles = <<>>)
+OncePerLib == pc = "start" /\ req.auto /\ ~req.bidir /\ k = 1 /\ Len(routes) = 1 /\ flags = <<>> /\ (\A j \in 1..Len(stages) : stages[j].sel = NONE /\ stages[j].profiles = <<>>)
 NoUnjudged(l) == \A i \in Fitting(l) : ~Unjudged(l[i])
 RuleWellDefined == OncePerLib => AutoAcceptableSet(lib) # {}
 SelectionUniqueUpToTies ==
